@@ -69,6 +69,9 @@ def explore(ctx, depth):
     cases += docrun.make_cases(ctx, 0, docs=[gen.shift_doc(ctx.rng) for _ in range(5 if depth == 'quick' else 50)])
     # the same note / chord text under different clefs in neighbouring spines and again after a clef change (seeded change C13_r5_2)
     cases += docrun.make_cases(ctx, 0, docs=[gen.clef_echo_doc(ctx.rng) for _ in range(5 if depth == 'quick' else 50)])
+    # interpretation lines of mixed kinds and syllables written with dots only (`...`): alone in their line once the other spines are deselected
+    from . import c05 as _c05
+    cases += docrun.make_cases(ctx, 0, docs=[_c05.mixed_interp_doc()])
     combos = []
     incs = [None, [TC.CORE, TC.SIGNATURES, TC.BARLINES, TC.STRUCTURAL], [TC.NOTE_REST, TC.BARLINES, TC.STRUCTURAL], None]
     excs = [None, [TC.DECORATION], [TC.DURATION], [TC.SIGNATURES, TC.LYRICS]]
@@ -83,12 +86,15 @@ def explore(ctx, depth):
             combos.append({'enc': enc, 'include': inc, 'exclude': exc})
         combos.append({'enc': enc, 'include': None, 'exclude': [rng.choice(parts)]})
 
+    docrun.reuse_objects(ctx, cases, steps=150)
+
     def sels(case):
         hs = case.adoc['headers']
         n = len(hs)
         types = sorted(set(hs))
         return [{}, {'ids': sorted(rng.sample(range(n), rng.randint(0, n)))}, {'types': sorted(rng.sample(types, rng.randint(1, len(types))))},
-                {'ids': sorted(rng.sample(range(n), rng.randint(1, n))), 'types': sorted(rng.sample(types, rng.randint(1, len(types))))}]
+                {'ids': sorted(rng.sample(range(n), rng.randint(1, n))), 'types': sorted(rng.sample(types, rng.randint(1, len(types))))}] + \
+            ([{'types': ['**text']}] if '**text' in hs and len(types) > 1 else [])
 
     def nt(case, combo, s):
         k = (combo.get('enc') not in (None, 'kern')) + (combo.get('include') is not None or combo.get('exclude') is not None) + bool(s)
